@@ -42,12 +42,32 @@ std::mutex& TimeZoneMutex() {
 
 }  // namespace
 
+#if defined(GOOGLE_CCTZ_VERIF)
+}  // namespace cctz
+// Verification-only observation point (null by default): called at the
+// schedule points of LoadTimeZone() with a point id and the zone name.
+extern "C" {
+void (*cctz_verif_load_hook)(int point, const char* name) = nullptr;
+}
+namespace cctz {
+#define CCTZ_VERIF_LOAD_HOOK(point, name) \
+  do {                                    \
+    if (cctz_verif_load_hook != nullptr)  \
+      cctz_verif_load_hook((point), (name).c_str()); \
+  } while (0)
+#else
+#define CCTZ_VERIF_LOAD_HOOK(point, name) \
+  do {                                    \
+  } while (0)
+#endif
+
 time_zone time_zone::Impl::UTC() {
   return time_zone(UTCImpl());
 }
 
 bool time_zone::Impl::LoadTimeZone(const std::string& name, time_zone* tz) {
   const Impl* const utc_impl = UTCImpl();
+  CCTZ_VERIF_LOAD_HOOK(0, name);  // entry
 
   // Check for UTC (which is never a key in time_zone_map).
   auto offset = seconds::zero();
@@ -63,13 +83,17 @@ bool time_zone::Impl::LoadTimeZone(const std::string& name, time_zone* tz) {
       TimeZoneImplByName::const_iterator itr = time_zone_map->find(name);
       if (itr != time_zone_map->end()) {
         *tz = time_zone(itr->second);
+        CCTZ_VERIF_LOAD_HOOK(1, name);  // cache hit (map lock held)
         return itr->second != utc_impl;
       }
     }
   }
 
+  CCTZ_VERIF_LOAD_HOOK(2, name);  // cache miss (map lock released)
+
   // Load the new time zone (outside the lock).
   std::unique_ptr<const Impl> new_impl(new Impl(name));
+  CCTZ_VERIF_LOAD_HOOK(5, name);  // new Impl constructed
 
   // Add the new time zone to the map.
   std::lock_guard<std::mutex> lock(TimeZoneMutex());
@@ -79,6 +103,7 @@ bool time_zone::Impl::LoadTimeZone(const std::string& name, time_zone* tz) {
     impl = new_impl->zone_ ? new_impl.release() : utc_impl;
   }
   *tz = time_zone(impl);
+  CCTZ_VERIF_LOAD_HOOK(6, name);  // inserted/found (map lock held)
   return impl != utc_impl;
 }
 
